@@ -767,10 +767,14 @@ impl KnownPeers {
     }
 
     fn inner(&self) -> std::sync::RwLockReadGuard<'_, HashMap<PeerId, PeerInfo>> {
+        #[cfg(bmwill_anemo_verif)]
+        crate::verif::sched_point("known-peers");
         self.0.read().unwrap()
     }
 
     fn inner_mut(&self) -> std::sync::RwLockWriteGuard<'_, HashMap<PeerId, PeerInfo>> {
+        #[cfg(bmwill_anemo_verif)]
+        crate::verif::sched_point("known-peers");
         self.0.write().unwrap()
     }
 }
